@@ -290,4 +290,40 @@ theorem collectGarbage_spec (m : Mgr) (ext : Nat → Nat) (hi : Inv m) (hr : Ref
   rw [hmem]
   exact ⟨hk, (gcRoots_none_mem m k).mpr (by simp [hk])⟩
 
+/-- whenever `collect_garbage` returns normally the computed table is empty (no hypothesis) -/
+theorem collectGarbage_ok_cache (roots : Option (List Int)) (m m' : Mgr)
+    (h : collectGarbage roots m = (.ok (), m')) : ∀ key : List Int, m'.cache[key]? = none := by
+  rw [collectGarbage_eq] at h
+  simp only [gcBody] at h
+  revert h
+  cases unusedOf (gcRoots roots m) m with
+  | mk r1 m1 =>
+    cases r1 with
+    | error e => intro h; cases h
+    | ok L =>
+      simp only []
+      cases gcLoop (m.tbl.succ.size + 1) L m1 with
+      | mk r2 mf =>
+        cases r2 with
+        | error e => intro h; cases h
+        | ok x =>
+          simp only []
+          split
+          · intro h
+            cases h
+            intro key
+            simp [gcFinish]
+          · intro h; cases h
+
+/-- `_min_free` is the least unused node number ≥ 2 -/
+def LeastFree (m : Mgr) : Prop := ∀ k, 2 ≤ k → k < m.minFree → (m.tbl.node? k).isSome
+
+theorem GcSub.leastFree {m m' : Mgr} (h : GcSub m m') (hl : LeastFree m) : LeastFree m' := by
+  intro k hk2 hk
+  have hle := h.minLe
+  obtain ⟨x, hx⟩ := Option.isSome_iff_exists.mp (hl k hk2 (by omega))
+  cases hk' : m'.tbl.node? k with
+  | some y => rfl
+  | none => have := h.minRemoved k x hx hk'; omega
+
 end DD
